@@ -28,8 +28,8 @@ ASSUMPTIONS = [
     "`function`); default-less parameters are a probe class bound to known findings",
     "descriptions are not compared here (C01/C02 do); hops use the ReST docstring style",
 ]
-CORE_T = ("int", "float", "str", "bool", "optional", "literal")
-CORE_D = ("int", "negint", "zero", "float", "negfloat", "smallfloat", "bool", "str", "strspace", "strtilde")
+CORE_T = ("int", "float", "str", "bool", "optional", "literal", "complex")
+CORE_D = ("int", "negint", "zero", "float", "negfloat", "smallfloat", "bool", "str", "strspace", "strtilde", "imag")
 EXHAUSTIVE = {"what": "all conversion sequences of length 1..3 over 5 formats for every generated interface",
               "sequences_per_interface": 155}
 
